@@ -54,8 +54,44 @@ def analyse():
     # assignment sits under an `if` whose test inspects the attribute itself (`if self.a is None:` …): the first call fixes the
     # value.  If the enclosing method takes arguments that the guard does not mention, the stored value may depend on them:
     # that is a hand-rolled memo keyed on nothing, recorded below like an `lru_cache` entry with the ignored arguments.
+    all_calls = []       # every call `<recv>.<name>(args…)` of the package: (name, positional args, keyword args)
+    for c_ in classes.values():
+        for fn_ in c_["methods"].values():
+            for x in ast.walk(fn_):
+                if isinstance(x, ast.Call) and isinstance(x.func, ast.Attribute):
+                    all_calls.append((x.func.attr, x.args, {k.arg: k.value for k in x.keywords if k.arg}))
+
+    def determined_at_call_sites(mname, params, key_params, ignored):
+        """a non-public method whose every call site in the package passes, for each argument the memo key ignores, an expression
+        built only from the key arguments' own names, `self`/`cls` and constants: the ignored argument is then a function of the key"""
+        if not mname.startswith("_"):
+            return False          # public entry point: callers are unknown
+        sites = [(a, k) for nm, a, k in all_calls if nm == mname]
+        if not sites:
+            return False
+
+        def arg_expr(a, k, p):
+            i = params.index(p)
+            return a[i] if i < len(a) else k.get(p)
+        for a, k in sites:
+            key_names = set()
+            for kp in key_params:
+                e = arg_expr(a, k, kp)
+                if e is None:
+                    return False
+                key_names |= {x.id for x in ast.walk(e) if isinstance(x, ast.Name)}
+            for p in ignored:
+                e = arg_expr(a, k, p)
+                if e is None:
+                    return False
+                names = {x.id for x in ast.walk(e) if isinstance(x, ast.Name)}
+                free = {nm for nm in names - key_names - {"self", "cls"} if not nm[:1].isupper()}     # capitalised names: classes / constant containers
+                if free:
+                    return False
+        return True
     mutable = set()
     lazy_sites = {}       # (class, attr) -> [(method, guarded, ignored args)]
+    sub_memo = []
     for cn, c in classes.items():
         for mn, fn in c["methods"].items():
             if mn == "__init__":
@@ -65,12 +101,38 @@ def analyse():
                 for ch in ast.iter_child_nodes(n):
                     parents[ch] = n
             params = [a.arg for a in fn.args.args[1:]] + [a.arg for a in fn.args.kwonlyargs]
+            # local data flow: which names each local variable is computed from
+            ldeps = {}
+            for n in ast.walk(fn):
+                if isinstance(n, ast.Assign) and n.value is not None:
+                    for t in n.targets:
+                        for nm in ([t] if isinstance(t, ast.Name) else [e for e in getattr(t, "elts", []) if isinstance(e, ast.Name)]):
+                            ldeps.setdefault(nm.id, set()).update(x.id for x in ast.walk(n.value) if isinstance(x, ast.Name))
+
+            def closure(names, ldeps=ldeps):
+                out, todo = set(), list(names)
+                while todo:
+                    x = todo.pop()
+                    if x not in out:
+                        out.add(x)
+                        todo += list(ldeps.get(x, ()))
+                return out
             for n in ast.walk(fn):
                 if isinstance(n, (ast.Assign, ast.AugAssign, ast.AnnAssign)):
                     tg = n.targets if isinstance(n, ast.Assign) else [n.target]
                     for t in tg:
                         if isinstance(t, ast.Tuple):
                             tg = tg + list(t.elts)
+                    # hand-rolled memo tables: `self.tbl[key] = value` — arguments the value depends on (through local variables too) but
+                    # the key does not mention are ignored by the memo
+                    for t in tg:
+                        if isinstance(t, ast.Subscript) and isinstance(t.value, ast.Attribute) and isinstance(t.value.value, ast.Name) and t.value.value.id == "self" \
+                                and not isinstance(n, ast.AugAssign) and n.value is not None:
+                            key_names = closure({x.id for x in ast.walk(t.slice) if isinstance(x, ast.Name)})
+                            used = closure({x.id for x in ast.walk(n.value) if isinstance(x, ast.Name)})
+                            ignored = [p for p in params if p in used and p not in key_names]
+                            if ignored and not determined_at_call_sites(mn, params, [p for p in params if p in key_names], ignored):
+                                sub_memo.append((cn, mn, ["argument %s ignored by the key of memo table %s" % (p, t.value.attr) for p in ignored]))
                     together = {t.attr for t in tg if isinstance(t, ast.Attribute) and isinstance(t.value, ast.Name) and t.value.id == "self"}
                     for t in tg:
                         if isinstance(t, ast.Attribute) and isinstance(t.value, ast.Name) and t.value.id == "self":
@@ -84,10 +146,10 @@ def analyse():
                                             guarded = True
                                         if isinstance(x, ast.Name):
                                             names.add(x.id)
-                            used = {x.id for x in ast.walk(n.value) if isinstance(x, ast.Name)} if not isinstance(n, ast.AugAssign) and n.value is not None else set()
-                            ignored = [p for p in params if p in used and p not in names]
+                            used = closure({x.id for x in ast.walk(n.value) if isinstance(x, ast.Name)}) if not isinstance(n, ast.AugAssign) and n.value is not None else set()
+                            ignored = [p for p in params if p in used and p not in closure(names)]
                             lazy_sites.setdefault((cn, t.attr), []).append((mn, guarded and not isinstance(n, ast.AugAssign), ignored))
-    hand_memo = []
+    hand_memo = list(sub_memo)
     for (cn, attr), sites in lazy_sites.items():
         if all(g for _, g, _ in sites):
             for mn, _, ignored in sites:
